@@ -103,7 +103,8 @@ Print Assumptions C05_host_case_weight_repaired.
 
 (* ===== Text round trip: NewTable(t.String()) =====
    Domain ([table_good], [text_good], all in Proofs/RouteRoundTrip.v): unique hosts and paths, no
-   empty route or host (the invariant); host in lower case and host ++ path splits back into
+   empty route or host (the invariant); host in lower case, accepted by glob.Compile (as every host
+   that add ever stored is, since c9fb527) and host ++ path splits back into
    (host, path); no route with two targets equal in service, URL, weight and tags ([twin_free]);
    every target has positive effective weight ([live]); service, host ++ path, URL, tags, option
    keys and values are non-empty strings over the SAFE BYTE CLASS [safe] (printable ASCII without
